@@ -3,7 +3,10 @@ package props
 import (
 	"encoding/json"
 	"fmt"
+	"github.com/jirenius/go-res/store"
+	"net/url"
 	"strings"
+	"time"
 
 	res "github.com/jirenius/go-res"
 
@@ -126,6 +129,65 @@ func c07StoreHandler(c *core.Ctx, p c04Params) {
 		}
 	}
 	c.Sample(map[string]interface{}{"scenario": "events generated by store.Handler", "config": cfg, "mutations": p.N})
+	if p.Shard == 0 {
+		c07QueryHandlerPatterns(c)
+	}
+}
+
+// c07QueryHandlerPatterns: a store.QueryHandler without AffectedResources callback
+// publishes its events on its own pattern, so it may only be registered on a pattern
+// without wildcards. Whatever registration accepts, every subject published after a
+// query store change must be a valid event subject.
+func c07QueryHandlerPatterns(c *core.Ctx) {
+	for _, name := range []string{"", "svc"} {
+		for _, pattern := range []string{"*.items", ">", "$t.items", "items.$id", "items.*", "items", "a.>"} {
+			env, err := newIdxEnv(false, "")
+			if err != nil {
+				c.Inconclusive("open: " + err.Error())
+				return
+			}
+			c.Eval(1)
+			trans := store.IDToRIDCollectionTransformer(func(id string) string { return "x.item." + id })
+			rg := newRig(name, nil)
+			pn := try(func() {
+				qh := store.QueryHandler{QueryStore: env.qs, Transformer: trans,
+					RequestHandler: func(rname string, pp map[string]string) (url.Values, error) {
+						return idxQuery{Index: "k", Prefix: "", Limit: -1}.values(), nil
+					}}
+				if len(pattern)%2 == 1 || strings.ContainsAny(pattern, "*>$") {
+					// a query resource: its changes are announced with query events on the resource itself
+					qh = store.QueryHandler{QueryStore: env.qs, Transformer: trans,
+						QueryRequestHandler: func(rname string, pp map[string]string, q url.Values) (url.Values, string, error) {
+							return idxQuery{Index: "k", Prefix: q.Get("prefix"), Limit: -1}.values(), "prefix=" + q.Get("prefix"), nil
+						}}
+				}
+				rg.S.Handle(pattern, res.Collection, qh)
+			})
+			desc := map[string]interface{}{"service_name": name, "pattern": pattern, "registration_refused": pn != nil}
+			if pn == nil {
+				if err := rg.start(); err == nil {
+					r := newRand(int64(len(pattern)))
+					for k := 0; k < 6; k++ {
+						env.mutate(r, []string{"a", "b"}, k)
+					}
+					env.qs.Flush()
+					time.Sleep(5 * time.Millisecond)
+					for _, m := range rg.C.Log() {
+						kind, probs := ref.ValidateMessage(m.Subject, m.Data, ref.MsgCtx{})
+						c.Obs("query_handler_messages_validated", 1)
+						for _, pr := range probs {
+							d := copyDesc(desc)
+							d["subject"], d["payload"] = m.Subject, m.Payload
+							c.Violation("C07/query-handler:"+kind+":"+c07ProbClass(pr), fmt.Sprintf("store.QueryHandler registered on %q (service %q) published %s: %s", pattern, name, m.Subject, pr), d)
+						}
+					}
+					rg.stop()
+				}
+			}
+			c.Distinct("qh/" + name + "/" + pattern)
+			env.close()
+		}
+	}
 }
 
 // c07ProbClass turns a validator message into a signature part without payload details.
